@@ -319,9 +319,124 @@ def check_hist(kind, src, h):
     return out + [("@hist", "")]
 
 
+# ---- lattice layouts and the registers they define -------------------------------------------------------------------------
+def special_cases(tier):
+    out = []
+    for rows, cols in itertools.product((1, 2, 3, 4), (1, 2, 3, 5)):
+        for cs, rs in ((5.0, 5.0), (4.0, 6.5)):
+            out.append(("special", "rect", rows, cols, cs, rs))
+        out.append(("special", "square", rows, cols, 5.5, 5.5))
+    for n in (1, 2, 3, 4, 6, 7, 8, 12, 19, 20):
+        out.append(("special", "tri", n, 0, 5.0, 0.0))
+    return out
+
+
+def _reg_xy(reg):
+    return [tuple(float(v) for v in np.asarray(reg.qubits[q].as_array(detach=True) if hasattr(reg.qubits[q], "as_array") else reg.qubits[q])) for q in reg.qubit_ids]
+
+
+def _on_traps(L, reg, tag, what):
+    """Generic part of the statement for a register a layout hands out: every qubit exactly on the trap it claims, ids prefix+index in
+    order, the layout recorded, coordinate lookup returns the claimed trap ids."""
+    out = []
+    coords = {i: tuple(float(v) for v in c) for i, c in L.traps_dict.items()}
+    xy = _reg_xy(reg)
+    if reg.layout != L:
+        out.append((f"C19:special-register-layout-lost:{tag}", what))
+    claimed = tuple(reg._layout_info.trap_ids) if getattr(reg, "_layout_info", None) is not None else None
+    if claimed is None or len(set(claimed)) != len(xy):
+        return out + [(f"C19:special-register-trap-ids:{tag}", f"{what}: claims {claimed}")]
+    for p, t in zip(xy, claimed):
+        if max(abs(a - b) for a, b in zip(p, coords[t])) > 1e-9:
+            out.append((f"C19:special-register-off-its-trap:{tag}", f"{what}: qubit at {p} claims trap {t} at {coords[t]}"))
+            break
+    if list(L.get_traps_from_coordinates(*xy)) != list(claimed):
+        out.append((f"C19:special-register-lookup:{tag}", f"{what}: lookup {L.get_traps_from_coordinates(*xy)} vs {claimed}"))
+    if list(reg.qubit_ids) != [f"a{i}" for i in range(len(xy))]:
+        out.append((f"C19:special-register-ids:{tag}", f"{what}: {list(reg.qubit_ids)}"))
+    return out
+
+
+def _is_block(xy, rows, cols, cs, rs):
+    """rows x cols points: `cols` distinct x values spaced by cs, `rows` distinct y values spaced by rs, every combination present."""
+    xs = sorted({round(p[0], 6) for p in xy})
+    ys = sorted({round(p[1], 6) for p in xy})
+    if len(xy) != rows * cols or len(set((round(p[0], 6), round(p[1], 6)) for p in xy)) != rows * cols or len(xs) != cols or len(ys) != rows:
+        return False
+    return all(abs(b - a - cs) < 1e-6 for a, b in zip(xs, xs[1:])) and all(abs(b - a - rs) < 1e-6 for a, b in zip(ys, ys[1:]))
+
+
+def check_special(kind, a, b, s1, s2):
+    from pulser.register.special_layouts import RectangularLatticeLayout, SquareLatticeLayout, TriangularLatticeLayout
+
+    out = []
+    if kind in ("rect", "square"):
+        rows, cols = a, b
+        L = RectangularLatticeLayout(rows, cols, s1, s2) if kind == "rect" else SquareLatticeLayout(rows, cols, s1)
+        traps = [tuple(float(v) for v in c) for c in L.traps_dict.values()]
+        if not _is_block(traps, rows, cols, s1, s2):
+            out.append((f"C19:special-layout-geometry:{kind}", f"{rows} rows x {cols} columns, spacings {s1} (horizontal) / {s2} (vertical): traps {traps[:6]}..."))
+        for r2, c2 in itertools.product(range(1, rows + 2), range(1, cols + 2)):
+            fits = r2 <= rows and c2 <= cols
+            for meth in ("rectangular",) + (("square",) if r2 == c2 else ()):
+                what = f"{kind} {rows}x{cols} -> {meth}_register({r2}{'' if meth == 'square' else ', ' + str(c2)})"
+                try:
+                    reg = L.square_register(r2, prefix="a") if meth == "square" else L.rectangular_register(r2, c2, prefix="a")
+                except ValueError:
+                    if fits:
+                        out.append((f"C19:special-register-refused:{kind}", what))
+                    continue
+                if not fits:
+                    out.append((f"C19:special-register-does-not-fit-but-accepted:{kind}", what))
+                    continue
+                out += _on_traps(L, reg, kind, what)
+                if not _is_block(_reg_xy(reg), r2, c2, s1, s2):
+                    out.append((f"C19:special-register-geometry:{kind}", f"{what}: atoms at {_reg_xy(reg)[:6]}"))
+    else:
+        n, sp = a, s1
+        L = TriangularLatticeLayout(n, sp)
+        traps = [tuple(float(v) for v in c) for c in L.traps_dict.values()]
+        dmin = min((math.dist(p, q) for i, p in enumerate(traps) for q in traps[:i]), default=sp)
+        if len(traps) != n or abs(dmin - sp) > 1e-6:
+            out.append(("C19:special-layout-geometry:tri", f"{n} traps, spacing {sp}: {len(traps)} traps, nearest distance {dmin}"))
+        for m in range(1, n + 2):
+            what = f"tri {n} -> hexagonal_register({m})"
+            try:
+                reg = L.hexagonal_register(m, prefix="a")
+            except ValueError:
+                if m <= n:
+                    out.append(("C19:special-register-refused:tri", what))
+                continue
+            if m > n:
+                out.append(("C19:special-register-does-not-fit-but-accepted:tri", what))
+                continue
+            out += _on_traps(L, reg, "tri", what)
+            xy = _reg_xy(reg)
+            if len(xy) != m or (m > 1 and abs(min(math.dist(p, q) for i, p in enumerate(xy) for q in xy[:i]) - sp) > 1e-6):
+                out.append(("C19:special-register-geometry:tri", f"{what}: {xy[:6]}"))
+        for r2, c2 in itertools.product((1, 2, 3), (1, 2, 3)):
+            what = f"tri {n} -> rectangular_register({r2}, {c2})"
+            try:
+                reg = L.rectangular_register(r2, c2, prefix="a")
+            except ValueError:
+                continue  # whether a rectangle fits a hexagonal patch depends on the patch; only accepted registers are judged
+            out += _on_traps(L, reg, "tri", what)
+            xy = _reg_xy(reg)
+            ys = sorted({round(p[1], 6) for p in xy})
+            ok = len(xy) == r2 * c2 and len(ys) == r2 and all(abs(b2 - a2 - sp * math.sqrt(3) / 2) < 1e-6 for a2, b2 in zip(ys, ys[1:]))
+            for y in ys:
+                xs = sorted(p[0] for p in xy if round(p[1], 6) == y)
+                ok = ok and len(xs) == c2 and all(abs(b2 - a2 - sp) < 1e-6 for a2, b2 in zip(xs, xs[1:]))
+            if not ok:
+                out.append(("C19:special-register-geometry:tri-rect", f"{what}: {xy[:6]}"))
+    return out + [("@special", "")]
+
+
 def worker(points):
     with warnings.catch_warnings():
         warnings.simplefilter("ignore")
+        if points and points[0] == "special":
+            return check_special(*points[1:])
         if points and points[0] == "hist":
             return check_hist(points[1], points[2], tuple(points[3]))
         r = check_set(tuple(tuple(p) for p in points))
@@ -348,8 +463,15 @@ def run(tier, seed):
                 classes[fp] = classes.get(fp, 0) + 1
             else:
                 res.add(Violation(fp, d, {"engine": "grid", "points": ["hist", c[1], c[2], list(c[3])]}, size=len(c[3])))
+    sc = special_cases(tier)
+    for c, r in zip(sc, gridx.run(worker, sc)):
+        for fp, d in r:
+            if fp.startswith("@"):
+                classes[fp] = classes.get(fp, 0) + 1
+            else:
+                res.add(Violation(fp, d, {"engine": "grid", "points": list(c)}, size=1))
     res.coverage = dict(
-        evaluations=perms + len(hc), distinct_nontrivial=len(sets) + classes.get("@hist", 0), exhaustive=True, point_sets=len(sets),
+        evaluations=perms + len(hc) + len(sc), distinct_nontrivial=len(sets) + classes.get("@hist", 0), exhaustive=True, point_sets=len(sets),
         object_histories=len(hc), outcome_classes=classes,
         rule="every subset of size 1-3 of a 21-point 2D grid and an 18-point 3D grid built from {-1,-1e-9,0,1,1+4e-7,1+6e-7,2} "
              "(plus five 4/5-point sets with ties in x,y), each in EVERY permutation; for each set every ordered selection of <= 3 "
